@@ -82,7 +82,7 @@ def run(repo_dir, harnesses, jobs=8, harness_timeout=600, extra_flags=(), cbmc_a
                     continue
                 hr = results[leaf]
                 hr.duration_s = r.get("duration_ms", 0) / 1000.0
-                hr.stats = stats.get(r["harness_id"], {})
+                hr.stats = stats.get(r["harness_id"]) or {}
                 st = r.get("status", "")
                 hr.status = {"Success": "success", "Failure": "failure"}.get(st, st.lower() or "error")
                 for c in r.get("checks", []):
@@ -148,11 +148,10 @@ def playback(repo_dir, rel_file, mod_name, harness, extra_flags=(), cbmc_args=()
     # inject the test into the harness module (it calls the harness fn by its leaf name)
     path = os.path.join(repo_dir, rel_file)
     src = open(path).read()
-    marker = "mod %s {" % mod_name
-    idx = src.rfind(marker)
-    if idx < 0:
+    # append the test at the end of the harness module (the module is the last item of the file)
+    idx = src.rstrip().rfind("}")
+    if idx < 0 or ("mod %s {" % mod_name) not in src:
         return test_src, None, "module marker not found"
-    idx += len(marker)
     src = src[:idx] + "\n" + test_src + "\n" + src[idx:]
     open(path, "w").write(src)
     cmd2 = ["cargo", "kani", "playback", "-Z", "concrete-playback", "--", test_name]
@@ -162,9 +161,11 @@ def playback(repo_dir, rel_file, mod_name, harness, extra_flags=(), cbmc_args=()
     except subprocess.TimeoutExpired:
         return test_src, None, "native playback timed out"
     out2 = p2.stdout
+    # keep only the informative part of the native run
+    keep = [l for l in out2.split("\n") if re.search(r"^error|panicked|assertion|^test |test result|SIGSEGV|signal|left:|right:|-->", l)]
     native_failed = None
     if re.search(r"test result: FAILED|panicked at|SIGSEGV|signal: 11", out2):
         native_failed = True
     elif re.search(r"test result: ok\. 1 passed", out2):
         native_failed = False
-    return test_src, native_failed, out2[-6000:]
+    return test_src, native_failed, "\n".join(keep[-60:])
